@@ -166,6 +166,27 @@ fn poly<const K: usize>(coeffs: &[f64], centre: f64, hw: f64, us: &[f64], weight
         let l = s.best_fit_line();
         ensure!((l.b() - fit.c[0]).abs() <= 1e3 * eps * cond * cfm + 1e-8 && (l.m() - fit.c[1]).abs() <= 1e3 * eps * cond * cfm + 1e-8, "C09/best_fit_line/vs_degree1_fit", "best_fit_line m={:e} b={:e}, degree-1 least squares {:?}", l.m(), l.b(), fit.c);
         cx.label("best_fit_line");
+        // history on one series: fitted on its first part, extended through its public abscissa domain and ordinates,
+        // fitted again — the second fit is that of the data it now holds (and of a clone of it)
+        let half = (pairs.len() / 2).max(2);
+        if half < pairs.len() && pairs[half - 1].0 < pairs[half].0 && pairs[0].0 < pairs[half - 1].0 {
+            let mut h = Series1::try_new(pairs[..half].iter().map(|p| p.0).collect(), pairs[..half].iter().map(|p| p.1).collect()).unwrap();
+            let _first = h.best_fit_line();
+            let mut ok = true;
+            for (x, y) in &pairs[half..] {
+                if h.x.push(*x).is_err() {
+                    ok = false;
+                    break;
+                }
+                h.y.push(*y);
+            }
+            if ok {
+                for (who, l2) in [("the extended series", h.best_fit_line()), ("a clone of the extended series", h.clone().best_fit_line())] {
+                    ensure!((l2.b() - l.b()).abs() <= 1e-9 * (1.0 + l.b().abs()) + 1e3 * eps * cond * cfm && (l2.m() - l.m()).abs() <= 1e-9 * (1.0 + l.m().abs()) + 1e3 * eps * cond * cfm, "C09/best_fit_line/history/stale_after_extension", "best_fit_line of {who} is m={:e} b={:e}; a series built from the same data gives m={:e} b={:e}", l2.m(), l2.b(), l.m(), l.b());
+                }
+                cx.label("best_fit_line_history");
+            }
+        }
     }
     let asym = centre.abs() > 0.1 * hw;
     cx.label_if(asym, "asymmetric");
